@@ -27,6 +27,8 @@ def _rename(fn: ast.AST, mapping: Dict[str, str]):
             n.id = mapping[n.id]
         elif isinstance(n, ast.arg) and n.arg in mapping:
             n.arg = mapping[n.arg]
+        elif n is not fn and isinstance(n, (ast.FunctionDef, ast.AsyncFunctionDef)) and n.name in mapping:
+            n.name = mapping[n.name]  # a nested def binds the same local
 
 
 def _assigned(st) -> Optional[str]:
